@@ -101,7 +101,6 @@ impl CKBProtocolHandler for SyncProtocol {
                     let db_blocks: HashSet<_> =
                         db_blocks.into_iter().map(|(hash, _)| hash).collect();
 
-                    self.storage.remove_matched_blocks(start_number);
                     let blocks = self.peers.clear_matched_blocks(&mut matched_blocks);
                     assert_eq!(blocks.len(), db_blocks.len());
                     info!(
@@ -118,6 +117,9 @@ impl CKBProtocolHandler for SyncProtocol {
                     }
                     self.storage
                         .update_block_number(start_number + blocks_count - 1);
+                    // Remove the record after all its blocks are indexed: it is the only clue that
+                    // these blocks have to be downloaded if the process exits halfway.
+                    self.storage.remove_matched_blocks(start_number);
 
                     // send more GetBlocksProof/GetBlocks requests
                     if let Some((_start_number, _blocks_count, db_blocks)) =
